@@ -65,6 +65,61 @@ type tables struct {
 	Rows   int
 }
 
+// tablePair: the tables of a transport whose address is lower ([0]) / higher ([1]) than its
+// peer's. On a tree without an identity tie-break both are identical.
+type tablePair struct {
+	T    [2]*tables
+	Same bool
+	Rows int
+}
+
+// of returns the tables peer s decides by under the given address order.
+func (tp *tablePair) of(s int, order string) *tables {
+	aLower := order != "B<A"
+	if (s == pA) == aLower {
+		return tp.T[0]
+	}
+	return tp.T[1]
+}
+
+func (tb *tables) equal(o *tables) bool {
+	if len(tb.Decide) != len(o.Decide) || len(tb.Sent) != len(o.Sent) || len(tb.Reap) != len(o.Reap) {
+		return false
+	}
+	for k, v := range tb.Decide {
+		w := o.Decide[k]
+		v.ErrText, w.ErrText = "", ""
+		if v != w {
+			return false
+		}
+	}
+	for k, v := range tb.Sent {
+		if o.Sent[k] != v {
+			return false
+		}
+	}
+	for k, v := range tb.Reap {
+		if o.Reap[k] != v {
+			return false
+		}
+	}
+	return true
+}
+
+func extractTablePair(ctx context.Context) (*tablePair, error) {
+	tp := &tablePair{}
+	for i, lower := range []bool{true, false} {
+		tb, err := extractTables(ctx, lower)
+		if err != nil {
+			return nil, err
+		}
+		tp.T[i] = tb
+		tp.Rows += tb.Rows
+	}
+	tp.Same = tp.T[0].equal(tp.T[1])
+	return tp, nil
+}
+
 var (
 	allDirs  = []string{"O", "I"}
 	allSnaps = []string{"N", "I", "O"}
@@ -126,16 +181,12 @@ type extractor struct {
 	all   []*quic.Conn
 }
 
-func newExtractor(ctx context.Context) (*extractor, error) {
-	T, err := newRPeer("T")
+func newExtractor(ctx context.Context, tLower bool) (*extractor, error) {
+	te, P, err := endpointPair("T", "P", tLower)
 	if err != nil {
 		return nil, err
 	}
-	P, err := newEndpoint("P")
-	if err != nil {
-		T.close()
-		return nil, err
-	}
+	T := newRPeerOn(te)
 	x := &extractor{ctx: ctx, T: T, P: P, ctl: gate.NewController(), spare: map[bool][]*quic.Conn{}}
 	x.peer = &protocol.Node{Address: P.addr}
 	x.key = T.t.VerifKey(x.peer)
@@ -415,8 +466,8 @@ func (x *extractor) reapRow(kind string) (reapOut, error) {
 }
 
 // extractTables runs every row on the real code.
-func extractTables(ctx context.Context) (*tables, error) {
-	x, err := newExtractor(ctx)
+func extractTables(ctx context.Context, tLower bool) (*tables, error) {
+	x, err := newExtractor(ctx, tLower)
 	if err != nil {
 		return nil, err
 	}
